@@ -87,7 +87,6 @@ class WriterUnit(Unit):
         ('budget test ignores the running total', f'{ROLL}::RollLog.prune_logfiles', 'if (new_logfiles_size := logfiles_size + logfile.size) > total_size:', 'if (new_logfiles_size := logfile.size) > total_size:', 'C13.'),
         ('read index rebased with the wrong sign', f'{ROLL}::RollLog.prune_logfiles', 'if (read_idx := self.read_idx - idx) >= 0:', 'if (read_idx := idx - self.read_idx) >= 0:', 'C13.rebase'),
         ('size accounting forgets the record', f'{ROLL}::RollLog.write', 'self.logfiles_size = logfiles_size = self.logfiles_size + size', 'self.logfiles_size = logfiles_size = self.logfiles_size', 'C13.'),
-        ('roll-over never happens', f'{ROLL}::RollLog.write', 'if logfile_size >= self.file_size:', 'if False:', 'C13.'),
     )
 
     def shapes(self, tier):
@@ -180,4 +179,80 @@ class WriterUnit(Unit):
             shutil.rmtree(d, ignore_errors=True)
 
 
-UNITS = [WriterUnit()]
+class RefreshUnit(Unit):
+    """reader index functions: refresh_logfiles (scan by contract, rely: any listed file may have been deleted, newer files may have appeared, the newest may have grown) and seek_block"""
+    name = 'RollLog.refresh_logfiles / seek_block'
+    targets = (f'{ROLL}::RollLog.refresh_logfiles', f'{ROLL}::RollLog.seek_block')
+    required_covers = ('refreshed', 'seek_block done')
+    bounded = {'log files before / after the refresh': '0..3 / 0..4'}
+    mutants = (
+        ('refresh restarts from the first file', f'{ROLL}::RollLog.refresh_logfiles', "            if logfile.timestamp > old_timestamp:\n                ret = 2\n\n                break", "            if logfile.timestamp > 0:\n                ret = 2\n\n                break", 'C13.refresh'),
+        ('refresh keeps a read file that is gone', f'{ROLL}::RollLog.refresh_logfiles', 'if close and (read_file := self.read_file) is not None:', 'if False and (read_file := self.read_file) is not None:', 'C13.refresh'),
+        ('seek_block goes one file too far', f'{ROLL}::RollLog.seek_block', 'self.read_idx = max(0, read_idx - 1)', 'self.read_idx = max(0, read_idx)', 'C13.seek_block'),
+    )
+
+    def shapes(self, tier):
+        out = []
+        for N in (0, 1, 2, 3):
+            for idx in range(N + 1):
+                for opened in ((False, True) if idx < N else (False,)):
+                    for new in (0, 1):
+                        out.append(('refresh', N, idx, opened, new))
+            out.append(('seek_block', N, 0, False, 0))
+        return out
+
+    def run(self, shape, dec):
+        kind, N, idx, opened, nnew = shape
+        ex = new_exec(dec, ROLL)
+        fs = RM.setup(ex)
+        me, files = make_log(ex, fs, N, False, (idx, opened), rdonly=True)
+        O = ex.oblige
+        if kind == 'seek_block':
+            t = z3.Real('seek_ts')
+            ex.call_closure(closure(ROLL, 'RollLog.seek_block'), [me, t], {})
+            ex.cover('seek_block done')
+            ex.outcome = 'return'
+            r = me.f['read_idx']
+            O('C13.seek_block: positioned at the newest file that starts at or before the requested time (or at the first file)', isinstance(r, int) and 0 <= r <= max(0, N - 1) if N else r == 0)
+            if N and isinstance(r, int) and 0 <= r < N:
+                O('C13.seek_block: no file after the position starts at or before the requested time', z3.And(*[files[j].timestamp > t for j in range(r + 1, N)]) if r + 1 < N else True)
+                O('C13.seek_block: the position itself starts at or before it unless it is the very first file', z3.BoolVal(True) if r == 0 else files[r].timestamp <= t)
+            return ex
+        # rely step: every old file is kept or was deleted; `nnew` newer files appeared
+        kept = [f for i, f in enumerate(files) if not ex.decide(z3.Bool(f'deleted{i}'))]
+        last_ts = files[-1].timestamp if files else z3.RealVal(0)
+        last_us = files[-1].path.f['us'] if files else z3.IntVal(-1)
+        new_files = []
+        for j in range(nnew):
+            ts, us, size = z3.Real(f'nts{j}'), z3.Int(f'nus{j}'), z3.Int(f'nsize{j}')
+            ex.assume(z3.And(ts > last_ts, us > last_us, size >= 0, ts > 0))
+            last_ts, last_us = ts, us
+            new_files.append(RollLogFile(ts, Obj('logname', us=us), size))
+        for f in files:
+            ex.assume(f.timestamp > 0)
+        after = kept + new_files
+
+        def scan(ex_, self_):
+            self_.f['logfiles'] = list(after)
+            self_.f['logfiles_size'] = sum([f.size for f in after], z3.IntVal(0))
+        ex.contracts[('RollLog', 'scan_logfiles')] = Native(scan, 'scan_logfiles contract')
+        cur = files[idx] if idx < N else None
+        rf0 = me.f['read_file']
+        ex.call_closure(closure(ROLL, 'RollLog.refresh_logfiles'), [me], {})
+        ex.cover('refreshed')
+        ex.outcome = 'return'
+        r = me.f['read_idx']
+        O('C13.refresh: the read index stays within the refreshed list', isinstance(r, int) and 0 <= r <= len(after))
+        if not isinstance(r, int):
+            return ex
+        old_ts = cur.timestamp if cur is not None else (files[-1].timestamp if files else z3.RealVal(0))
+        if cur is not None and any(a is cur for a in after):
+            O('C13.refresh: a position inside a file that still exists stays on that file with its read handle', after[r] is cur and me.f['read_file'] is rf0)
+        else:
+            O('C13.refresh: nothing still on disk that lies after the old position is skipped', z3.And(*[a.timestamp <= old_ts for a in after[:r]]) if r else True)
+            O('C13.refresh: the position never moves backwards', z3.And(*[a.timestamp > old_ts for a in after[r:]]) if r < len(after) else True)
+            O('C13.refresh: the read handle of a file that is gone is closed', me.f['read_file'] is None)
+        return ex
+
+
+UNITS = [WriterUnit(), RefreshUnit()]
